@@ -16,6 +16,16 @@ An operation is a JSON list, a case is dict(cls=..., init=..., ops=[...]):
   ['ior'|'iand'|'isub'|'ixor', operand, form]      in-place algebra;  form in 'list','tuple','oset','self'
   ['or'|'and'|'sub'|'xor', operand, form]          algebra producing a new set (receiver must keep contents and order)
   ['iterrm', R] / ['reviterrm', R]                 iterate (forward / reversed), removing every visited element that is in R
+
+Interrupted operations (the caller catches the error and keeps using the set; item interrupted-operations and random-long):
+  [<one of the 8 algebra kinds>, P, 'gen-raises']       the right-hand side is a generator that yields the elements of P, then raises
+  [<one of the 8 algebra kinds>, P, 'list-unhashable']  the right-hand side is the list P followed by an unhashable element
+  ['add-unhashable'] ['discard-unhashable']             the element itself cannot be a member
+What the property claims there (nothing about which exception comes out, nor whether the part taken before the failure stays):
+the receiver is still a consistent ordered set (no duplicates, len = number of elements walked, reverse = exact reverse, then all the
+observations of `observe`), nothing is in it that was neither there before nor delivered by P, `|=` and `-=`/`^=` lose no element
+that they have no reason to touch, the old elements keep their order in front of what `|=` brought (a |= is a sequence of
+one-at-a-time arrivals in the order of P), and `| & - ^` leave the receiver as it was.  The reference adopts the observed walk.
 """
 import itertools
 import signal
@@ -98,6 +108,27 @@ def _operand_elems(ref, operand, form):
     return list(ref) if form == 'self' else list(operand)
 
 
+FAILING_FORMS = ('gen-raises', 'list-unhashable')
+INPLACE = ('ior', 'iand', 'isub', 'ixor')
+BINARY = ('or', 'and', 'sub', 'xor')
+
+
+class _SourceFails(Exception):
+    """raised by the right-hand side of an interrupted operation"""
+
+
+def _failing_operand(operand, form):
+    if form == 'gen-raises':
+        def gen():
+            for x in operand:
+                yield x
+            raise _SourceFails('the source of the elements fails here')
+        return gen()
+    if form == 'list-unhashable':
+        return list(operand) + [[ABSENT]]
+    raise ValueError(form)
+
+
 # ----------------------------------------------------------------------------------------------------------------------
 # consistency of any ordered set with expected contents (used for the receiver and for results of | & - ^)
 # ----------------------------------------------------------------------------------------------------------------------
@@ -174,6 +205,89 @@ def observe(cls, s, ref, level=2, salt=0):
 
 
 # ----------------------------------------------------------------------------------------------------------------------
+# interrupted operations: the operation raises part-way (failing right-hand side, unhashable element), the set stays in use
+# ----------------------------------------------------------------------------------------------------------------------
+def _consistent_walk(s, what, may_hold, must_hold):
+    """The forward walk of `s` after checking that it is the walk of a set: no duplicates, only elements of `may_hold`, every element
+    of `must_hold`, len = number of elements, reverse walk = exact reverse."""
+    fwd = _bounded(iter(s), what)
+    if len(fwd) != len(set(fwd)) or not set(fwd) <= set(may_hold) or not set(must_hold) <= set(fwd):
+        raise Failure('contents', dict(what=what, iterated=fwd),
+                      dict(no_duplicates=True, at_least=sorted(set(must_hold), key=repr), at_most=sorted(set(may_hold), key=repr)))
+    if len(s) != len(fwd):
+        raise Failure('length', dict(what=what, len=len(s), iterated=fwd), dict(len=len(fwd)))
+    rev = _bounded(reversed(s), what + ' (reversed)')
+    if rev != fwd[::-1]:
+        raise Failure('reverse-iteration', dict(what=what, reversed=rev, forward=fwd), dict(reversed=fwd[::-1]))
+    return fwd
+
+
+def _is_subsequence(small, big):
+    it = iter(big)
+    return all(any(x == y for y in it) for x in small)
+
+
+def _step_interrupted(cls, s, ref, op, checked):
+    kind = op[0]
+    if kind in ('add-unhashable', 'discard-unhashable'):
+        try:
+            if kind == 'add-unhashable':
+                s.add([ABSENT])
+            else:
+                s.discard([ABSENT])
+        except Exception:        # TypeError today; which exception is not part of the property
+            pass
+        # an unhashable object is not an element of any of these sets: contents and order as before (checked by the caller)
+        return s, ref
+    if kind not in INPLACE + BINARY:
+        raise ValueError('unknown op %r' % (op,))
+    P = list(op[1])
+    o = _failing_operand(P, op[2])
+    what = 'receiver after interrupted %s' % kind
+    old = list(ref)
+    if kind in INPLACE:
+        try:
+            if kind == 'ior':
+                s |= o
+            elif kind == 'iand':
+                s &= o
+            elif kind == 'isub':
+                s -= o
+            else:
+                s ^= o
+        except Exception:
+            pass
+        if kind == 'ior':
+            fwd = _consistent_walk(s, what, may_hold=old + P, must_hold=old)
+            arrivals = [x for i, x in enumerate(P) if x not in old and x not in P[:i]]
+            if fwd[:len(old)] != old or not _is_subsequence(fwd[len(old):], arrivals):
+                raise Failure('insertion-order', dict(what=what, iterated=fwd),
+                              dict(order='%r, then elements of %r in that order' % (old, arrivals)))
+        elif kind == 'iand':
+            fwd = _consistent_walk(s, what, may_hold=old, must_hold=[])
+        elif kind == 'isub':
+            fwd = _consistent_walk(s, what, may_hold=old, must_hold=[x for x in old if x not in P])
+        else:
+            fwd = _consistent_walk(s, what, may_hold=old + P, must_hold=[x for x in old if x not in P])
+        ref[:] = fwd      # what stayed of the part taken before the failure is not claimed: the reference adopts the walk
+        return s, ref
+    try:
+        if kind == 'or':
+            r = s | o
+        elif kind == 'and':
+            r = s & o
+        elif kind == 'sub':
+            r = s - o
+        else:
+            r = s ^ o
+    except Exception:
+        return s, ref         # no result; the receiver is as before (checked by the caller against the unchanged reference)
+    if checked:
+        _consistent_walk(r, 'result of interrupted %s' % kind, may_hold=old + P, must_hold=[])
+    return s, ref
+
+
+# ----------------------------------------------------------------------------------------------------------------------
 # one step: real operation + reference operation + step-specific clauses.  Returns (s, ref)
 # ----------------------------------------------------------------------------------------------------------------------
 def _unexpected(op, exc):
@@ -183,6 +297,8 @@ def _unexpected(op, exc):
 def step(cls, s, ref, op, checked=True):
     kind = op[0]
     try:
+        if kind in ('add-unhashable', 'discard-unhashable') or (len(op) > 2 and op[2] in FAILING_FORMS):
+            return _step_interrupted(cls, s, ref, op, checked)
         if kind == 'add':
             s.add(op[1])
             if op[1] not in ref:
@@ -434,25 +550,37 @@ def _sequences(alphabet, depth):
             yield idx
 
 
-def _enumerate(ctx, heads, alphabet, depth, full_eq_len=FULL_EQ_LEN):
-    """heads: list of case dicts without 'ops'.  Each sequence is a case of its own; the last step is checked."""
+def _pattern_sequences(patterns):
+    """patterns: list of patterns, a pattern is a list of alphabets (one per position).  Yields op lists."""
+    for pattern in patterns:
+        for ops in itertools.product(*pattern):
+            yield ops
+
+
+def _enumerate(ctx, heads, alphabet, depth, full_eq_len=FULL_EQ_LEN, patterns=None):
+    """heads: list of case dicts without 'ops'.  Each sequence is a case of its own; the last step is checked.
+    With `patterns` the sequences are those of the patterns (alphabet/depth unused) and the empty sequence is left out."""
     i = -1
     noted = False
     timeouts = 0
     for head in heads:
-        for idx in itertools.chain([()], _sequences(alphabet, depth)):
+        if patterns is None:
+            sequences = ([alphabet[j] for j in idx] for idx in itertools.chain([()], _sequences(alphabet, depth)))
+        else:
+            sequences = _pattern_sequences(patterns)
+        for ops in sequences:
             i += 1
             if i % ctx.nshards != ctx.shard:
                 continue
             if (i & 255) == ctx.shard and ctx.expired():
                 ctx.exhausted = False
                 return False
-            case = dict(head, ops=[alphabet[j] for j in idx])
+            case = dict(head, ops=list(ops))
             record = len(ctx.keys) < KEY_CAP
             if not record and not noted:
                 noted = True
                 ctx.note('distinct_nontrivial is capped at %d recorded keys per shard; every sequence is distinct by construction' % KEY_CAP)
-            ctx.case(key=None, nontrivial=record, sample=case if i < 3 * ctx.nshards and len(idx) >= 2 else None)
+            ctx.case(key=None, nontrivial=record, sample=case if i < 3 * ctx.nshards and len(ops) >= 2 else None)
             f = run_case(case, full_eq_len=full_eq_len)
             if f is not None:
                 ctx.check(False, clause=f.clause, input=case, observed=f.observed, required=f.required)
@@ -463,6 +591,45 @@ def _enumerate(ctx, heads, alphabet, depth, full_eq_len=FULL_EQ_LEN):
                         ctx.note('enumeration stopped after %d cases that ran into the CPU limit' % timeouts)
                         return False
     return True
+
+
+# ----------------------------------------------------------------------------------------------------------------------
+# interrupted operations: an operation that raises part-way, after which the set stays in use
+# ----------------------------------------------------------------------------------------------------------------------
+def _interrupt_alphabets():
+    ior = [['ior', o, f] for o in ORDERED for f in FAILING_FORMS]                       # 32: every ordered part taken before the failure
+    rest = []
+    for k in ('iand', 'isub', 'ixor'):
+        for i, o in enumerate(SCRAMBLED):
+            rest.append([k, o, FAILING_FORMS[(i + len(k)) % 2]])
+    for k in BINARY:
+        for i, o in enumerate(SCRAMBLED):
+            rest.append([k, o, FAILING_FORMS[(i + len(k) + 1) % 2]])
+    rest += [['add-unhashable'], ['discard-unhashable']]
+    follow = ([['add', x] for x in U] + [['discard', x] for x in U] + [['pop', True], ['pop', False], ['clear'], ['remove', ABSENT]] +
+              [['ior', [0, 1, 2], 'list'], ['ior', [2, 1], 'oset'], ['ior', [1], 'tuple'], ['ior', [], 'self'],
+               ['isub', [1], 'list'], ['ixor', [2, 0], 'tuple'], ['or', [2, 1, 0], 'list'],
+               ['iterrm', list(U)], ['reviterrm', list(U)], ['iterrm', [1]]])
+    return ior, rest, follow
+
+
+INTERRUPT_IOR, INTERRUPT_REST, FOLLOW = _interrupt_alphabets()
+INTERRUPT = INTERRUPT_IOR + INTERRUPT_REST
+INTERRUPT_ALL = INTERRUPT + FOLLOW
+INTERRUPT_HEADS_3 = (None, [1], [0, 2], [2, 0, 1])     # constructors after which length-3 sequences are enumerated in the quick tier
+
+
+def _interrupted_plan(ctx, roots):
+    """(heads, patterns) of the interrupted-operations part of algebra-sequences"""
+    all_heads = [dict(r, cls=c) for r in roots for c in ('OrderedSet', 'QuerySet')]
+    q_heads = [h for h in all_heads if h['cls'] == 'QuerySet']
+    few = [dict(cls='QuerySet', init=i) if i is None else dict(cls='QuerySet', init=i, init_form='list') for i in INTERRUPT_HEADS_3]
+    plan = [(all_heads, [[INTERRUPT], [INTERRUPT, FOLLOW]]),
+            (q_heads if ctx.quick else all_heads, [[FOLLOW, INTERRUPT]]),
+            (few if ctx.quick else all_heads, [[INTERRUPT_IOR, FOLLOW, FOLLOW]])]
+    if not ctx.quick:
+        plan.append((few, [[INTERRUPT_ALL, INTERRUPT_IOR, INTERRUPT_ALL]]))
+    return plan
 
 
 @item('core-sequences',
@@ -492,7 +659,14 @@ def core_sequences(ctx):
       bound='constructor from each of the 16 duplicate-free ordered lists over {0,1,2} (as list/tuple/generator/OrderedSet), from nothing and '
             'from 2 iterables with duplicates, for OrderedSet and QuerySet, followed by every sequence of length<=2 (quick: plus length 3 after the constructor from [2,0,1] on QuerySet; thorough: length<=3 for all '
             'constructors on QuerySet, <=2 on OrderedSet) over %d operations: add/discard/pop/clear/remove-absent, |= with 16 ordered operands, &= -= ^= and | & - ^ with the 8 subsets, the same 8 '
-            'operators with the receiver itself as operand, reversed-iteration with removal (7 R), forward iteration with removal (2 R)' % len(ALGEBRA),
+            'operators with the receiver itself as operand, reversed-iteration with removal (7 R), forward iteration with removal (2 R).  '
+            'Interrupted operations (they raise part-way, the set stays in use): |= whose right-hand side delivers each of the 16 duplicate-free '
+            'ordered lists over {0,1,2} and then fails (a generator that raises / a list ending in an unhashable element), &= -= ^= | & - ^ with a '
+            'right-hand side that fails after each of the 8 subsets, add/discard of an unhashable element (%d interrupted operations I), and %d '
+            'completing operations F (add/discard/pop/clear/remove-absent, |= -= ^= |, iteration with removal forward and reversed): after all '
+            'constructors on both classes every I and every I,F; every F,I (quick: QuerySet; thorough: both classes); every interrupted |= '
+            'followed by F,F (quick: QuerySet from nothing, [1], [0,2], [2,0,1]; thorough: all constructors, both classes, plus after those 4 '
+            'every length-3 sequence over I and F with an interrupted |= in the middle)' % (len(ALGEBRA), len(INTERRUPT), len(FOLLOW)),
       shards=16, weight=3)
 def algebra_sequences(ctx):
     roots = _roots()
@@ -502,11 +676,16 @@ def algebra_sequences(ctx):
     else:
         plan = [([h for h in all_heads if h['cls'] == 'OrderedSet'], 2), ([h for h in all_heads if h['cls'] == 'QuerySet'], 3)]
     ok = True
+    for heads, patterns in _interrupted_plan(ctx, roots):      # the small part first: it is always enumerated completely
+        ok = ok and _enumerate(ctx, heads, None, 0, full_eq_len=1, patterns=patterns)
     for heads, depth in plan:
         ok = ok and _enumerate(ctx, heads, ALGEBRA, depth, full_eq_len=1)
     if ok:
         ctx.exhausted = True
     if ctx.shard == 0:
+        ctx.note('after an operation that raised part-way the property is taken to claim a consistent set that invented nothing and lost nothing '
+                 'it had no reason to touch; whether the part taken before the failure stays, and which exception comes out, is not claimed. '
+                 'A constructor whose source fails yields no set and is not checked')
         ctx.note('order of the results of | & - ^ and of the survivors/arrivals of &= -= ^= is not claimed by the property: contents only '
              '(the reference adopts the observed order after &= -= ^=)')
 
@@ -526,10 +705,11 @@ def _random_op(rng, universe):
     if r < 0.52:
         return ['pop', rng.random() < 0.5]
     if r < 0.53:
-        return ['clear']
+        return ['clear'] if rng.random() < 0.7 else [rng.choice(['add-unhashable', 'discard-unhashable'])]
     k = rng.randint(0, len(universe))
     operand = rng.sample(universe, k)
-    form = rng.choice(FORMS) if rng.random() < 0.95 else 'self'
+    q = rng.random()
+    form = rng.choice(FORMS) if q < 0.88 else ('self' if q < 0.93 else rng.choice(FAILING_FORMS))
     if r < 0.63:
         return ['ior', operand, form]
     if r < 0.70:
@@ -565,7 +745,8 @@ def _shrink(case, clause, deadline_checks=400, seconds=8.0):
 
 @item('random-long',
       stands_in_for=['xtuml.tools.OrderedSet', 'xtuml.meta.QuerySet'],
-      bound='random sequences of 120 operations (all operation kinds, operands drawn from a 6-element universe incl. 0), every step checked; '
+      bound='random sequences of 120 operations (all operation kinds, operands drawn from a 6-element universe incl. 0; about 1 in 14 of the algebra '
+            'operations is interrupted: its right-hand side fails after the drawn elements), every step checked; '
             'quick: 150 sequences per shard, thorough: until the time share ends (at most 20000 per shard)',
       shards=16, weight=1)
 def random_long(ctx):
